@@ -7,7 +7,9 @@ Record probe := Probe {
   p_symbol : list N;           (* symbol reported by the metadata query *)
   p_robot_is : list N;         (* which robot key authorises batchExecute (the key itself) *)
   p_swaps_off_direct : bool;   (* a swap method called directly is refused as a disabled function *)
-  p_swaps_off_task : bool      (* ... and as a task of executeTasks *)
+  p_swaps_off_task : bool;     (* ... and as a task of executeTasks *)
+  p_swaps_off_batch : bool;    (* a swap answer carried by the robot's batch is not processed *)
+  p_multi_off_batch : bool     (* a multi-swap answer carried by the robot's batch is not processed *)
 }.
 Global Instance probe_eq_dec : EqDecision probe.
 Proof. solve_decision. Defined.
@@ -17,8 +19,8 @@ Record case := mkCase { c_token : bool; c_steps : list step }.
 
 Definition probe_of (stored : option cconf) : probe :=
   match stored with
-  | None => Probe true [] [] false false
-  | Some v => Probe false (k_symbol v) (k_robot v) (k_noswaps v) (k_noswaps v)
+  | None => Probe true [] [] false false false false
+  | Some v => Probe false (k_symbol v) (k_robot v) (k_noswaps v) (k_noswaps v) (k_noswaps v) (k_nomulti v)
   end.
 
 Fixpoint m_steps (tok : bool) (stored : option cconf) (l : list step) : bool :=
@@ -37,11 +39,11 @@ Fixpoint p_steps (tok : bool) (prev : probe) (l : list step) : bool :=
   | s :: r =>
     (if o_ok s
      then s_admin s && match decode (s_arg s) with
-                       | Some v => valid_for tok v && bool_decide (o_probe s = Probe false (k_symbol v) (k_robot v) (k_noswaps v) (k_noswaps v))
+                       | Some v => valid_for tok v && bool_decide (o_probe s = Probe false (k_symbol v) (k_robot v) (k_noswaps v) (k_noswaps v) (k_noswaps v) (k_nomulti v))
                        | None => false end
      else negb (o_cfg_changed s) && bool_decide (o_probe s = prev)) && p_steps tok (o_probe s) r
   end.
-Definition holds (c : case) : bool := p_steps (c_token c) (Probe true [] [] false false) (c_steps c).
+Definition holds (c : case) : bool := p_steps (c_token c) (Probe true [] [] false false false false) (c_steps c).
 
 Definition label (c : case) : N :=
   fold_right (fun s a => N.lor a (match s_arg s with IJson true true _ => 1 | IJson _ _ _ => 2 | IPos _ _ _ => 4 end +
